@@ -257,7 +257,12 @@ func c18Run(sc *c18Scenario) *c18Obs {
 	o := &c18Obs{facts: map[string]*c18Http{}}
 	c := C()
 	var req *Request
-	att := func() int { return req.RetryAttempt }
+	att := func() int {
+		if req == nil { // package-level entry point: the request is created inside the call (no retry there)
+			return 0
+		}
+		return req.RetryAttempt
+	}
 	touch := func() {
 		for len(o.logs) <= att() {
 			o.logs = append(o.logs, nil)
@@ -594,7 +599,31 @@ func c18Run(sc *c18Scenario) *c18Obs {
 	if needBody || sc.unreplayable {
 		verb = []string{"Post", "Put", "Patch"}[sc.verb%3]
 	}
+	// package-level helpers (req.Get, req.MustPost, …) delegate to the default client; usable
+	// when the scenario configures nothing at request level
+	usePkg := (sc.entry == 'v' || sc.entry == 'm') && !sc.sT && !sc.eT && len(sc.reqResp) == 0 && sc.maxRetries == 0 &&
+		sc.conds == nil && !needBody && !sc.unreplayable && !sc.builderErr && !reqLevelNoAutoRead && sc.verb%4 == 3
+	if usePkg {
+		req = nil
+		old := DefaultClient()
+		SetDefaultClient(c)
+		defer SetDefaultClient(old)
+	}
 	call := func() {
+		if usePkg {
+			name := verb
+			if sc.entry == 'm' {
+				name = "Must" + verb
+			}
+			out := reflect.ValueOf(c18PkgFuncs[name]).Call([]reflect.Value{reflect.ValueOf(goodURL)})
+			o.resp, _ = out[0].Interface().(*Response)
+			if sc.entry == 'v' {
+				o.err, _ = out[1].Interface().(error)
+			} else if o.resp != nil {
+				o.err = o.resp.Err
+			}
+			return
+		}
 		switch sc.entry {
 		case 'd':
 			req.Method, req.RawURL = method, goodURL
@@ -644,6 +673,12 @@ func c18E2EServe(w http.ResponseWriter, r *http.Request) {
 		return
 	}
 	http.Error(w, "no such case", 599)
+}
+
+var c18PkgFuncs = map[string]interface{}{
+	"Get": Get, "Post": Post, "Put": Put, "Patch": Patch, "Delete": Delete, "Options": Options, "Head": Head,
+	"MustGet": MustGet, "MustPost": MustPost, "MustPut": MustPut, "MustPatch": MustPatch, "MustDelete": MustDelete,
+	"MustOptions": MustOptions, "MustHead": MustHead,
 }
 
 type rtFuncC18 func(*http.Request) (*http.Response, error)
